@@ -718,3 +718,39 @@ def spell(repo):
     res.samples = [f"constants: {sorted(constants)[:6]}", f"pairs: {[(a, b) for a, b, _, _ in pairs]}"]
     res.analysed = [TEMPLATES, HG, G.TOKENIZER, "compiler/front_end/reserved_words"]
     return res
+
+
+def dupname(repo):
+    """R-DUPNAME: a name is entered into a scope only when it is not there yet; a second definition in
+    one scope reports duplicate_name_error (never overwrites, never silently keeps the first)."""
+    res = RuleResult("R-DUPNAME")
+    m = repo.mod(SR)
+    n_sites = 0
+    for f in m.top_funcs():
+        for n in walk_no_nested_funcs(f.node):
+            # scope[name] = new_scope
+            if isinstance(n, ast.Assign) and isinstance(n.targets[0], ast.Subscript) and isinstance(n.value, ast.Name) \
+                    and "scope" in ast.unparse(n.targets[0].value) and isinstance(n.targets[0].slice, ast.Name) \
+                    and n.value.id == "new_scope":
+                n_sites += 1
+                res.instances += 1
+                table = ast.unparse(n.targets[0].value)
+                key = n.targets[0].slice.id
+                p = m.parent(n)
+                ok = False
+                if isinstance(p, ast.If) and n in p.orelse:
+                    t = p.test
+                    if isinstance(t, ast.Compare) and isinstance(t.ops[0], ast.In) and ast.unparse(t.left) == key \
+                            and ast.unparse(t.comparators[0]) == table:
+                        body = "\n".join(ast.unparse(s) for s in p.body)
+                        if "duplicate_name_error" in body and "errors.append" in body:
+                            ok = True
+                if not ok:
+                    res.add(f"{SR}|{f.qualname}|insert", f"{f.qualname} enters `{key}` into `{table}` without the "
+                            f"`if {key} in {table}: errors.append(duplicate_name_error(...)) else:` guard: a second definition "
+                            "in the same scope silently replaces or shadows the first", SR, n.lineno, f.qualname)
+    if n_sites < 2:
+        raise AnalysisError(f"symbol_resolver: only {n_sites} scope insertion sites found")
+    res.samples = [f"{n_sites} guarded insertions of new_scope"]
+    res.analysed = [SR]
+    return res
